@@ -64,8 +64,11 @@ template< typename F, typename FP>
          if (mpDuplicatePolicy->acceptNew())
          {
             // policy: replace
+            // create the new filter first: if its constructor throws (e.g.
+            // invalid class list), the existing filter must stay in place
+            auto  new_filter = new F( filter_param);
             delete it;
-            it = new F( filter_param);
+            it = new_filter;
          } // end if
 
          if (detail::IFilter::isLevelFilter( filter_type))
